@@ -265,6 +265,32 @@ func runC20(c *core.Ctx) {
 		}
 		c.Shape("gps-extremes")
 	}
+	// calendar and GPS landmarks that are not leap seconds: GPS week-number rollovers (every 1024
+	// weeks), the uint32-seconds rollover (2116), year / century / leap-day boundaries, the Unix
+	// 2^31 second, the day of each leap-second *announcement-free* June 30 / December 31
+	if c.Whole("gps-landmarks") {
+		var marks []time.Time
+		for k := 1; k <= 5; k++ {
+			marks = append(marks, gpsEpochUnix.Add(time.Duration(k)*1024*7*24*time.Hour))
+		}
+		marks = append(marks, time.Unix(1<<31, 0).UTC(), time.Unix(1<<31-1, 0).UTC(), gpsEpochUnix, gpsEpochUnix.Add(time.Duration(1<<32)*time.Second))
+		for y := 1980; y <= 2101; y++ {
+			marks = append(marks, time.Date(y, 1, 1, 0, 0, 0, 0, time.UTC), time.Date(y, 7, 1, 0, 0, 0, 0, time.UTC), time.Date(y, 3, 1, 0, 0, 0, 0, time.UTC))
+		}
+		for _, m := range marks {
+			var prevD time.Duration
+			for k, o := range []time.Duration{-19 * time.Second, -18 * time.Second, -2 * time.Second, -time.Second, -1, 0, 1, time.Second, 2 * time.Second, 18 * time.Second, 19 * time.Second} {
+				t := m.Add(o)
+				d := c20GPSInstant(c, t, "landmark")
+				if k > 0 && !(d > prevD) {
+					c.Violate("C20|gps|not-increasing|"+leapKey(t), "around %s: %v then %v", m.Format(time.RFC3339), prevD, d)
+				}
+				prevD = d
+				c20GPSDuration(c, gpsModelForward(m)+o)
+			}
+		}
+		c.Shape("gps-landmarks", len(marks))
+	}
 	n := c.N(50000, 40000000)
 	span := time.Date(2100, 1, 1, 0, 0, 0, 0, time.UTC).Sub(gpsEpochUnix)
 	chunk := int64(1000)
